@@ -20,7 +20,8 @@ funcs = sys.argv[3:]
 SWAPS = [(r' == ', ' != '), (r' != ', ' == '), (r' <= ', ' < '), (r' < ', ' <= '), (r' >= ', ' > '), (r' > ', ' >= '), (r' and ', ' or '), (r' or ', ' and '),
          (r'\bch\(', 'pa('), (r'\bpa\(', 'ch('), (r'\bneighbors\(', 'adj('), (r'\badj\(', 'neighbors('), (r' & ', ' | '), (r' \| ', ' & '), (r' - \{', ' | {'),
          (r'= 0$', '= 1'), (r'= 1$', '= 0'), (r'\bTrue\b', 'False'), (r'\bFalse\b', 'True'), (r'\bnot ', ''), (r'>= 2', '>= 1'), (r'>= 2', '>= 3'), (r'\bi, j\b', 'j, i'), (r'\[j, i\]', '[i, j]'), (r'\[i, j\]', '[j, i]'),
-         (r'np\.all\(', 'np.any('), (r'i \+= 1', 'i += 2'), (r'i = 0$', 'i = 1'), (r'> 0', '> 1'), (r'\.copy\(\)', '')]
+         (r'np\.all\(', 'np.any('), (r'axis=0', 'axis=1'), (r'axis=1', 'axis=0'), (r'\[:, (\w+)\]', r'[\1, :]'), (r'\[(\w+), :\]', r'[:, \1]'), (r'\.T\b', ''), (r' \+ ', ' - '), (r' - ', ' + '), (r' \* ', ' / '), (r' / ', ' * '),
+         (r'\bmin\(', 'max('), (r'\bmax\(', 'min('), (r'sorted\(', 'list('), (r', replace=False', ''), (r' \+ 1\b', ''), (r' - 1\b', ''), (r'\*\*0\.5', ''), (r'k=1', 'k=0'), (r'\.all\(\)', '.any()'), (r'\.any\(\)', '.all()'), (r'i \+= 1', 'i += 2'), (r'i = 0$', 'i = 1'), (r'> 0', '> 1'), (r'\.copy\(\)', '')]
 muts = []
 for fn in funcs:
     s, e = frange(fn)
@@ -33,7 +34,7 @@ for fn in funcs:
         if indoc or l.strip().startswith('#') or 'print(' in l or not l.strip(): continue
         for pat, rep in SWAPS:
             for m in re.finditer(pat, l):
-                nl = l[:m.start()] + re.sub(pat, rep, l[m.start():m.end()]) + l[m.end():]
+                nl = l[:m.start()] + re.sub(pat, rep, l[m.start():m.end()], count=1) + l[m.end():]
                 if nl != l: muts.append((fn, ln, l.strip(), nl.strip(), nl))
 pid = sys.argv[1]
 def run(k):
